@@ -20,7 +20,7 @@
 From Coq Require Import PeanoNat List.
 From mathcomp Require Import all_ssreflect all_algebra.
 From EasyML Require Import Base.Sx Model.Num Model.LinAlg Model.Decomp
-     Proofs.C07P1 Proofs.C08P1 Proofs.C08P2 Proofs.C08P3 Proofs.C08P5 Proofs.C08P4 Proofs.C08P6.
+     Proofs.C07P1 Proofs.C08P1 Proofs.C08P2 Proofs.C08P3 Proofs.C08P5 Proofs.C08P4 Proofs.C08P6 Proofs.C08Ex.
 Import GRing.Theory Num.Theory.
 Local Open Scope ring_scope.
 
@@ -130,35 +130,18 @@ Theorem C08_qr_triangular_partial : forall (F : fieldType) (n : nat) (x e : 'cV[
 Proof. exact @reflect. Qed.
 
 (* non-vacuity: Coq's reals are an ordered field with a square-root oracle, on which the
-   transcribed Cholesky runs; and a regular QR run over the rationals: the 2 x 1 input (7, 24)
-   with an oracle that knows sqrt 625 = 25 and sqrt 1600 = 40 *)
+   transcribed Cholesky runs; and a regular QR run over the rationals (Proofs/C08Ex.v): the 2 x 1
+   input m_example = (1, 0) with the oracle sq_example that knows sqrt 1 = 1 and sqrt 4 = 2 *)
 Example C08_nonvacuous_field : ordered_sqrt_field Rops Rdefinitions.Rlt.
 Proof. exact Rops_ordered_sqrt_field. Qed.
 
 Example C08_nonvacuous_cholesky : exists L, cholesky Rops ex_1x1 = Some L.
 Proof. eexists. exact Rops_run_1x1. Qed.
 
-Definition sq_example (x : rat) : rat := if x == 625%:R then 25%:R else 40%:R.
 Example C08_nonvacuous :
-  let m : list (list rat) := [:: [:: 7%:R]; [:: 24%:R]] in
-  wf2 2 1 m /\ (exists q r, qr (rops sq_example) m = Some (q, r)) /\
-  qr_regular sq_example 2 (List.seq 0 (Nat.min (2 - 1) 1)) m.
-Proof.
-  split; first by split; [|repeat constructor].
-  split.
-  { case E: (qr (rops sq_example) [:: [:: 7%:R]; [:: 24%:R]]) => [[q r]|]; first by exists q, r.
-    move/qr_absent_iff: E. rewrite /mrows /mcols /= => H. by inversion H as [|? H']; inversion H'. }
-  rewrite /= /householder_u /euclidean_length /sumsq /= /sq_example.
-  have E1 : 7%:R * 7%:R + 24%:R * 24%:R = 625%:R :> rat by rewrite -!natrM -natrD.
-  rewrite !add0r.
-  rewrite E1 eqxx.
-  have E2 : (7%:R + 25%:R) * (7%:R + 25%:R) + 24%:R * 24%:R = 1600%:R :> rat by rewrite -natrD -!natrM -natrD.
-  rewrite E2.
-  have -> : (1600%:R == 625%:R :> rat) = false by rewrite eqr_nat.
-  split; first by apply/eqP; rewrite pnatr_eq0.
-  split; last by [].
-  by rewrite -natrM.
-Qed.
+  wf2 2 1 m_example /\ (exists q r, qr (rops sq_example) m_example = Some (q, r)) /\
+  qr_regular sq_example 2 (List.seq 0 (Nat.min (2 - 1) 1)) m_example.
+Proof. exact qr_example. Qed.
 
 Print Assumptions C08_cholesky_sound.
 Print Assumptions C08_cholesky_rejects.
